@@ -58,12 +58,13 @@ type persisted struct {
 }
 
 type Options struct {
-	Dir          string         // persistence dir ("" = in memory)
-	Journal      string         // journal file path ("" = none)
-	Incarnation  int            // stamped on journal lines
-	Hook         func(ev Event) // called for every event (after journaling), e.g. crash points
-	RetainBlocks int64          // if > 0 Commit returns RetainHeight = height - RetainBlocks + 1
-	CommitDelay  time.Duration  // injected at the existing suspension point inside Commit
+	Dir          string                   // persistence dir ("" = in memory)
+	Journal      string                   // journal file path ("" = none)
+	Incarnation  int                      // stamped on journal lines
+	Hook         func(ev Event)           // called for every event (after journaling), e.g. crash points
+	RetainBlocks int64                    // if > 0 Commit returns RetainHeight = height - RetainBlocks + 1
+	RetainHeight func(height int64) int64 // if set, Commit returns exactly this (any value, also hostile ones); overrides RetainBlocks
+	CommitDelay  time.Duration            // injected at the existing suspension point inside Commit
 	CheckDelay   time.Duration
 	AppVersion   uint64
 	CheckTxFn    func(tx []byte, height int64) abci.ResponseCheckTx // overrides the default verdict
@@ -362,8 +363,26 @@ func (a *App) Commit() abci.ResponseCommit {
 	if a.opt.RetainBlocks > 0 && a.height >= a.opt.RetainBlocks {
 		res.RetainHeight = a.height - a.opt.RetainBlocks + 1
 	}
+	if a.opt.RetainHeight != nil {
+		res.RetainHeight = a.opt.RetainHeight(a.height)
+	}
 	a.log("consensus", "Commit", "ret", a.height, nil, hash, "")
 	return res
+}
+
+// Clone copies the committed application state (height, key-value store, validators) into a new in-memory
+// application with its own options; to be called between blocks.
+func (a *App) Clone(opt Options) *App {
+	a.mu.Lock()
+	defer a.mu.Unlock()
+	b := &App{opt: opt, height: a.height, initDone: a.initDone, kv: make(map[string]string, len(a.kv)), vals: make(map[string]int64, len(a.vals))}
+	for k, v := range a.kv {
+		b.kv[k] = v
+	}
+	for k, v := range a.vals {
+		b.vals[k] = v
+	}
+	return b
 }
 
 func (a *App) persist() {
